@@ -2,7 +2,6 @@ package base
 
 import (
 	"maps"
-	"slices"
 	"ti/context"
 )
 
@@ -152,7 +151,7 @@ func getParentMethodT(
 
 		if parentNode.IsExtend {
 			extendFrame := parentNode.Frame
-			if extendFrame == "" && slices.Contains(BuiltinClasses, parentNode.Class) {
+			if extendFrame == "" && IsBuiltinClass(parentNode.Class) {
 				extendFrame = "Builtin"
 			}
 
@@ -175,7 +174,7 @@ func getParentMethodT(
 
 		if parentNode.IsInclude {
 			includeFrame := parentNode.Frame
-			if includeFrame == "" && slices.Contains(BuiltinClasses, parentNode.Class) {
+			if includeFrame == "" && IsBuiltinClass(parentNode.Class) {
 				includeFrame = "Builtin"
 			}
 
